@@ -885,6 +885,13 @@ def _(M, a, c):
     if fn == 'strong_count': raise Unsupported("Rc/Arc::strong_count")
     raise Unsupported("Rc/Arc::" + fn)
 PTR_IDS = {}; KEEP = []
+@model_re(r'^(std|core)::ptr::(const_ptr|mut_ptr)::<impl \*(const|mut) .*>::(cast|cast_const|cast_mut|addr|expose_provenance)$')
+def _(M, a, c): return a[0]             # the opaque address stays what it is
+@model_re(r'^(std|core)::ptr::(eq|addr_eq)$')
+def _(M, a, c):
+    p, q = a
+    if isinstance(p, Int) and isinstance(q, Int): return M.binop('Eq', p, q)
+    return (V(p) if isinstance(p, Ref) else p) is (V(q) if isinstance(q, Ref) else q)
 @model_re(r'^std::sync::Mutex::<.*>::(lock|is_poisoned|into_inner|get_mut)$|^std::sync::Mutex::(lock|is_poisoned|into_inner|get_mut)$')
 def _(M, a, c):
     fn = norm_name(c).split('::')[-1]; m = V(a[0])
@@ -1331,7 +1338,7 @@ def _(M, a, c):
             if parts[-1][0] == parts[-1][1]: parts.pop()
             out = []
             for (p, q) in parts:
-                if q > p and M.branch(M.binop('Eq', items[q - 1], Int(8, False, 13))): q -= 1
+                if q > p and M.branch(eqb(items[q - 1], Int(8, False, 13))): q -= 1
                 out.append((p, q))
             parts = out
         return from_list([sl(p) for p in parts])
